@@ -2400,6 +2400,16 @@ def _move_after_scope(
     return additions, removals
 
 
+def _rebinds_tested_name(scope: ast.If, node: ast.AST) -> bool:
+    """A test in scope reads a name that node (re)binds, so node cannot be moved before the test"""
+    stored = {name.id for name in core.walk(node, ast.Name(ctx=(ast.Store, ast.Del)))}
+    return any(
+        name.id in stored
+        for condition in core.walk(scope, ast.If)
+        for name in core.walk(condition.test, ast.Name)
+    )
+
+
 @processing.fix
 def breakout_common_code_in_ifs(source: str) -> str:
     root = core.parse(source)
@@ -2413,7 +2423,9 @@ def breakout_common_code_in_ifs(source: str) -> str:
 
         removals = set()
         additions = set()
-        has_namedexpr = any(core.walk(node.test, ast.NamedExpr))
+        has_namedexpr = any(core.walk(node.test, ast.NamedExpr)) or _rebinds_tested_name(
+            node, body[0]
+        )
         start_branches = [body[0], orelse[0]]
         end_branches = [body[-1], orelse[-1]]
 
@@ -2459,7 +2471,9 @@ def breakout_common_code_in_ifs(source: str) -> str:
 
         removals = set()
         additions = set()
-        has_namedexpr = any(core.walk(node.test, ast.NamedExpr))
+        has_namedexpr = any(core.walk(node.test, ast.NamedExpr)) or _rebinds_tested_name(
+            node, body[0]
+        )
         start_branches = [body[0], orelse[0]]
         if not has_namedexpr and _is_same_code(*start_branches):
             additions, removals = _move_before_scope(node, start_branches)
